@@ -254,7 +254,10 @@ func (pl *planter) genArr(depth int) (interface{}, interface{}) {
 		}
 		if old, have := pl.sigma[v]; have {
 			// re-used variable inside an array: its value must be a left-over element
-			if (pl.strict && !IsScalar(old)) || (IsScalar(old) && seen[Canon(old)]) {
+			// (an optional variable is never re-used here: where it cannot be matched again it is
+			// skipped, which makes the outcome depend on map order — known finding KF-C03-3, left
+			// to the C03 profile)
+			if optional || (pl.strict && !IsScalar(old)) || (IsScalar(old) && seen[Canon(old)]) {
 				hasVar = false
 			} else {
 				p = append(p, v)
@@ -437,7 +440,7 @@ func (g *G) MatchPlanted(strict bool) MatchCase {
 func (g *G) MatchMalformed() MatchCase {
 	c := g.MatchPlanted(false)
 	c.Profile = "malformed"
-	switch g.Intn(5) {
+	switch g.Intn(6) {
 	case 0: // two variables in one array, possibly next to a non-matching key
 		m := map[string]interface{}{"a": []interface{}{"?x", "?y"}, "c": g.Scalar()}
 		f := map[string]interface{}{"a": []interface{}{g.Scalar()}, "c": g.Scalar()}
@@ -452,6 +455,10 @@ func (g *G) MatchMalformed() MatchCase {
 	case 2: // '?' string in the message
 		c.F = map[string]interface{}{"a": "?q", "b": []interface{}{"?r", 1.0}}
 		c.P = map[string]interface{}{"a": "?x", "b": []interface{}{"?y"}}
+	case 5: // an optional variable used at two places (order dependence)
+		c.P = map[string]interface{}{"a": map[string]interface{}{"likes": []interface{}{"??o"}, "n": []interface{}{"??o"}}, "likes": []interface{}{"?z"}}
+		c.F = map[string]interface{}{"a": map[string]interface{}{"likes": []interface{}{1.0, "e"}, "n": []interface{}{1.0}}, "likes": []interface{}{3.0, "e", "tacos"}}
+		c.Bs = map[string]interface{}{}
 	case 3: // a variable used at two keys with structured values (order dependence)
 		v1 := map[string]interface{}{"p": 1.0}
 		v2 := map[string]interface{}{"p": 1.0, "q": 2.0}
